@@ -29,6 +29,8 @@ type VPCase struct {
 	Cfg   map[string]string `json:"cfg"`
 	Val   string            `json:"val"` // expected (expr) / configured (validate)
 	Cons  []VPCons          `json:"cons"`
+	Tag   string            `json:"tag"`      // missing: value | prop | prefix
+	Req   bool              `json:"required"` // missing: is the point required?
 }
 type VPCons struct {
 	K string `json:"k"`
@@ -98,8 +100,49 @@ func runVP(c *VPCase) map[string]any {
 		got := "err"
 		if ok {
 			got = val[strings.Index(val, ":")+1:]
+			var str string
+			if strings.HasPrefix(got, "\"") && json.Unmarshal([]byte(got), &str) == nil {
+				got = str // a string result: compare its text
+			}
 		}
 		out["text"], out["cfg"], out["want"], out["got"], out["panic"] = c.Text, c.Cfg, c.Val, got, p
+	case "missing":
+		var tag string
+		opt := ""
+		if !c.Req {
+			opt = ",required=false"
+		}
+		switch c.Tag {
+		case "prop":
+			tag = fmt.Sprintf(`prop:"nokey%s"`, opt)
+		case "prefix":
+			tag = fmt.Sprintf(`prefix:"nokey%s"`, opt)
+		default:
+			tag = fmt.Sprintf(`value:"${nokey}%s"`, opt)
+		}
+		t := vpTypes[c.FType]
+		ok, val, p := bindOnce(t, tag, "other: 1\n")
+		zero := reflect.Zero(t)
+		out["tag"], out["ftype"], out["required"], out["ok"], out["panic"] = c.Tag, c.FType, c.Req, ok, p
+		out["zero"] = val == render(zero)
+	case "vstruct":
+		// a struct bound by prefix whose member carries the constraints; the validate argument on the point switches it on
+		var cs []string
+		for _, k := range c.Cons {
+			if k.K == "required" {
+				cs = append(cs, "required")
+			} else {
+				cs = append(cs, fmt.Sprintf("%s=%d", k.K, k.N))
+			}
+		}
+		inner := reflect.StructOf([]reflect.StructField{{Name: "A", Type: reflect.TypeOf(0),
+			Tag: reflect.StructTag(fmt.Sprintf(`yaml:"a" validate:%q`, strings.Join(cs, ",")))}})
+		ok, _, p := bindOnce(inner, `prefix:"s,validate"`, "s:\n  a: "+c.Val+"\n")
+		cons := c.Cons
+		if cons == nil {
+			cons = []VPCons{}
+		}
+		out["x"], out["cons"], out["ok"], out["panic"] = c.Val, cons, ok, p
 	case "validate":
 		var cs []string
 		for _, k := range c.Cons {
